@@ -10,7 +10,7 @@ import random
 from collections import Counter
 
 from ..common import Result, sut, digest
-from ..taps import RandomTap, installed
+from ..taps import RandomTap, installed, InjectedFault
 from ..stats import two_stage
 
 ID = "C05"
@@ -24,7 +24,7 @@ RULE = ("distributions with 1..12 keys, 1..4 topologies, entries 0..6, positive 
 ASSUMPTIONS = ["raw draws are observed through random.choices in joint_degree.py; if that hook is not seen the minimality clause "
                "falls back to: every entry dominates some key and the total distance to the nearest dominated keys is at most sum(size_i - 1)",
                "key frequencies: Pearson chi-square two-stage protocol on N=20000"]
-HEADLINE = ["samplings", "history_updates", "weights_checked_at_hook", "columns_needing_stubs", "stubs_added", "choices_hook_seen", "fallback_minimality", "preset_randrange", "downstream_empirical", "downstream_generate", "chi2_tests", "chi2_escalations", "size1_columns"]
+HEADLINE = ["samplings_aborted_by_injected_fault", "refused_configuration_calls", "inadmissible_sizes_accepted_then_reset", "samplings", "history_updates", "weights_checked_at_hook", "columns_needing_stubs", "stubs_added", "choices_hook_seen", "fallback_minimality", "preset_randrange", "downstream_empirical", "downstream_generate", "chi2_tests", "chi2_escalations", "size1_columns"]
 REQUIRED = {t: {"columns_needing_stubs": 50, "choices_hook_or_fallback": 50, "downstream_empirical": 20,
                 "downstream_generate": 20, "chi2_tests": 5, "size1_columns": 10, "preset_randrange": 20, "history_updates": 50} for t in ("quick", "thorough")}
 
@@ -229,6 +229,20 @@ def run_case(case):
             preset = rng.choice([None, None, "lo", "hi"])
             scheds.append((Nv, preset))
             history.append("sample(%d)" % Nv)
+            if rng.random() < 0.1:
+                # injected fault: a sampling call that dies at its n-th random draw (failpoint at an existing call site) and is caught
+                # by the caller, who samples again from the same loader
+                t0 = RandomTap(seed=rng.randrange(1 << 30), keep_log=False)
+                t0.fail_at = rng.choice([1, 2, 3, 5])
+                with installed(t0, "jd"):
+                    try:
+                        L.sample_jds_from_jdd(Nv)
+                        res.count("fault_injection_samplings_not_aborted")
+                    except InjectedFault:
+                        res.count("samplings_aborted_by_injected_fault")
+                    except Exception:
+                        res.count("fault_injection_samplings_raised_otherwise")
+                history.append("sample(%d) aborted by an injected exception" % Nv)
             tap = RandomTap(seed=rng.randrange(1 << 30), preset={"randrange": preset} if preset else None)
             if preset:
                 res.count("preset_randrange")
